@@ -7,7 +7,7 @@ from datetime import date, datetime, timedelta, timezone
 
 from hypothesis import strategies as st
 
-from vlib.core import Part
+from vlib.core import Part, nested_part
 from vlib.observe import walk
 
 from nutree import Tree, TypedTree
@@ -460,4 +460,6 @@ def hyp_cases(draw, tier):
 
 PARTS = [
     Part("structure-defs", run, strategy=lambda tier: hyp_cases(tier), n={"quick": 1500, "thorough": 150000}),
+    nested_part("C20", ["structure-defs"], {"TZ": "America/Los_Angeles"}, "tz-west-of-utc", "local time is behind UTC"),
+    nested_part("C20", ["structure-defs"], {"TZ": "Pacific/Kiritimati"}, "tz-east-of-utc", "local time is 14 hours ahead of UTC"),
 ]
